@@ -18,7 +18,8 @@ PAIRS = ["MetropolisChain", "GibbsChain", "PcaChain", "HamiltonianChain", "Ensem
 ENTRIES = ["take_step", "advance", "run_for", "get_parameter", "get_probabilities", "get_sample",
            "get_interval", "get_marginal", "mode", "save", "matrix_plot", "trace_plot", "plot_diagnostics"]
 FLOORS = {"key-agreement": 6, "reload-defined": 40, "save-defined": 5, "restored-value-flow": 4,
-          "state-persisted": 7, "key-pairing": 4}
+          "state-persisted": 7, "key-pairing": 4,
+          "stack-roundtrip": 2}
 
 
 def load_context(prog, ci):
@@ -353,6 +354,50 @@ def run(prog, tier):
             obs.append(struct_ob("key-pairing", qual(lc, lfn), not wrong and n_pairs > 0,
                                  "load assigns attributes from keys that save wrote from a different attribute: " + "; ".join(wrong),
                                  rel, lfn.lineno, slots={"pairs_checked": n_pairs}))
+
+        # stack-roundtrip: a list of vectors saved with array(list) (stacked along axis 0) is rebuilt from axis 0
+        if own_pair:
+            always_, sometimes_, values_ = keys_written(prog, ci, sfn)
+            aliases = {}
+            for st_ in lfn.body:
+                if isinstance(st_, ast.Assign) and isinstance(st_.targets[0], ast.Name) and isinstance(st_.value, ast.Subscript) \
+                        and ast.unparse(st_.value.value) == "D" and isinstance(st_.value.slice, ast.Constant):
+                    aliases[st_.targets[0].id] = st_.value.slice.value
+            bad, n_rt = [], 0
+            for st_ in ast.walk(lfn):
+                if not (isinstance(st_, ast.Assign) and isinstance(st_.value, ast.ListComp)
+                        and isinstance(st_.targets[0], ast.Attribute) and ast.unparse(st_.targets[0].value) == var):
+                    continue
+                lcomp = st_.value
+                g = lcomp.generators[0]
+                elt = lcomp.elt
+                if not isinstance(elt, ast.Subscript):
+                    continue
+                base = elt.value
+                key = None
+                if isinstance(base, ast.Subscript) and ast.unparse(base.value) == "D" and isinstance(base.slice, ast.Constant):
+                    key = base.slice.value
+                elif isinstance(base, ast.Name) and base.id in aliases:
+                    key = aliases[base.id]
+                if key is None or key not in values_:
+                    continue
+                saved = values_[key]
+                stacked = (isinstance(saved, ast.Call) and ast.unparse(saved.func) == "array") or \
+                    ast.unparse(saved) == f"self.{st_.targets[0].attr}"
+                if not stacked:
+                    continue
+                n_rt += 1
+                idx = elt.slice.elts if isinstance(elt.slice, ast.Tuple) else [elt.slice]
+                tvar = ast.unparse(g.target)
+                first_ok = ast.unparse(idx[0]) == tvar and all(
+                    isinstance(x, ast.Slice) and x.lower is None and x.upper is None and x.step is None for x in idx[1:])
+                rng_ok = ast.unparse(g.iter) in (f"range({ast.unparse(base)}.shape[0])", f"range(len({ast.unparse(base)}))")
+                if not (first_ok and rng_ok):
+                    bad.append(f"{var}.{st_.targets[0].attr} <- `{ast.unparse(lcomp)}` but save stacked the list along axis 0 "
+                               f"(`{ast.unparse(saved)}`): element i must be row i, i in range(shape[0])")
+            if n_rt:
+                obs.append(struct_ob("stack-roundtrip", qual(lc, lfn), not bad, "; ".join(bad), rel, lfn.lineno,
+                                     slots={"lists_checked": n_rt}))
 
         # state-persisted: attributes mutated by stepping are saved and restored
         step_entry = "take_step" if prog.find_method(ci, "take_step")[1] is not None else "advance"
